@@ -139,7 +139,9 @@ def analyse_function(prog: Program, fn: FuncInfo) -> List[Dict[str, Any]]:
                         verdict = "refuted"
                 rec = sites.setdefault(key, {"key": key, "function": efn, "expr": src, "axis": k, "line": getattr(node, "lineno", 0), "verdicts": set(),
                                              "index": show_val(c), "extent": show_val(ext) if ext is not None else "?", "shape_only": shape_index(c),
-                                             "foreign_extent": False})
+                                             "foreign_extent": False, "lo_unproved": False})
+                if lo is not True and s.facts.decide(cmp_cond("!=", c, K(-1))) is not True:
+                    rec["lo_unproved"] = True  # on this path neither 0 <= index nor index != -1 (the usual 'none yet' sentinel) is known
                 if ext is not None and verdict == "unproved" and lo is True:
                     # the index is bounded by the length of ONE parameter array and addresses ANOTHER parameter array: whether the two have the
                     # same extent is decided where they are allocated (R-SHAPES / R-INIT-COHERENCE), not inside this function
@@ -178,6 +180,36 @@ def _advance(base: Tuple[Any, ...], c: Aff) -> Tuple[Any, ...]:
     return tuple(lst) + (c,)
 
 
+def _caller_may_pass_negative(prog: Program, fn: FuncInfo, param: str) -> bool:
+    """Does some call of fn inside the package pass, for `param`, a negative literal or a local that is assigned a negative literal?"""
+    pos = fn.params.index(param)
+    for g in prog.all_functions():
+        if not g.module.startswith(prog.package + "."):
+            continue
+        for c in ast.walk(g.node):
+            if not (isinstance(c, ast.Call) and isinstance(c.func, ast.Name) and c.func.id == fn.name and len(c.args) > pos):
+                continue
+            r = prog.resolve(g.module, c.func.id)
+            if not (r and r[0] == "func" and r[1].fq == fn.fq):
+                continue
+            a = c.args[pos]
+
+            def neg(e: ast.expr) -> bool:
+                return (isinstance(e, ast.UnaryOp) and isinstance(e.op, ast.USub) and isinstance(e.operand, ast.Constant) and isinstance(e.operand.value, int)) \
+                    or (isinstance(e, ast.Constant) and isinstance(e.value, int) and not isinstance(e.value, bool) and e.value < 0)
+            if neg(a):
+                return True
+            if isinstance(a, ast.Name):
+                for st in ast.walk(g.node):
+                    if isinstance(st, ast.Assign) and any(isinstance(t, ast.Name) and t.id == a.id for t in st.targets) and neg(st.value):
+                        return True
+                    if isinstance(st, ast.Assign) and isinstance(st.value, ast.Tuple) or isinstance(st, ast.Assign) and len(st.targets) > 1:
+                        for t in st.targets:  # a = b = -1
+                            if isinstance(t, ast.Name) and t.id == a.id and neg(st.value):
+                                return True
+    return False
+
+
 def load_table() -> Dict[str, Any]:
     if not os.path.exists(TABLE):
         raise AnalysisError(f"must-prove table missing: {TABLE}")
@@ -213,6 +245,13 @@ def rule_extents(ctx: Ctx, prog: Program) -> None:
                 ctx.violation("R-EXTENT", fn.path, rec["function"], f"{rec['expr']}#{rec['axis']}", loc,
                               f"the index of {rec['expr']} (axis {rec['axis']}: {rec['index']}) is no longer provably within the extent {rec['extent']} "
                               f"({rec['verdict']}); on the pinned tree the path facts proved 0 <= index < extent. Compiled code performs no bounds check")
+            elif rec.get("lo_unproved") and rec["index"] in fn.params and _caller_may_pass_negative(prog, fn, rec["index"]):
+                # the index is a scalar parameter, a caller starts it from a negative sentinel ('none yet'), and on some path to this subscript
+                # nothing excludes the sentinel
+                ctx.violation("R-EXTENT", fn.path, rec["function"], f"sentinel-reaches-index:{''.join(rec['expr'].split())}#{rec['axis']}", loc,
+                              f"{rec['expr']} is indexed by the parameter `{rec['index']}`, which a caller in the package initialises with a negative sentinel, "
+                              "and on some path to this subscript nothing excludes the sentinel: index -1 is the last element when the array has one, and is "
+                              "outside the array when it is empty (a model without constraints); compiled code performs no bounds check")
             elif key in undecided:
                 ctx.undecided_site("R-EXTENT", key, undecided[key].get("reason", "value-dependent index"))
             else:
